@@ -11,7 +11,7 @@ let bits (l : bool list) : string =
 
 let err_class (e : Sparse.rerr) : string =
   match e with
-  | Sparse.XStore c -> (match int_of_n c with 1 -> "missing" | 2 -> "fault" | 3 -> "other" (* undecodable object: Chunk.Data() fails *) | n -> "store" ^ string_of_int n)
+  | Sparse.XStore c -> (match int_of_n c with 1 -> "missing" | 2 -> "fault" | 3 -> "other" (* undecodable object: Chunk.Data() fails *) | 5 -> "wrapped-eof" | n -> "store" ^ string_of_int n)
   | Sparse.XNoData -> "other"
   | Sparse.XNegative -> "other"
 
@@ -43,6 +43,8 @@ let register () =
         let store k i = (calls := (int_of_nat k, Z.format "%064x" (z_of_n i)) :: !calls); base k i in
         let step s l = Sparse.step idx nullid store s l in
         let s = ref (Sparse.init idx) in
+        let at_fetch k = match Stdlib.List.nth_opt (!s).Sparse.s_threads k with
+          | Some { Sparse.pc = Some (Sparse.PFetch _); _ } -> true | _ -> false in
         let at_set k = match Stdlib.List.nth_opt (!s).Sparse.s_threads k with
           | Some { Sparse.pc = Some (Sparse.PSet _); _ } -> true | _ -> false in
         let rec run_thread k stop fuel =
@@ -81,6 +83,7 @@ let register () =
                 done
             | 'D' -> if thr (num hd) >= 0 then run_thread (thr (num hd)) (fun () -> false) 100000
             | 'U' -> let k = thr (num hd) in if k >= 0 then run_thread k (fun () -> at_set k) 100000
+            | 'G' -> let k = thr (num hd) in if k >= 0 then run_thread k (fun () -> at_fetch k) 100000
             | 'X' ->
                 (match Stdlib.List.tl parts with
                  | [st; cache; pre] ->
